@@ -99,7 +99,8 @@ type verifAmlResult struct {
 	tree     *ObjectTree
 	tables   []*verifAmlTable
 	elapsed  time.Duration
-	stack    string // top frames of the panic, if any
+	cpu      time.Duration // CPU time of the process spent in the parse (cases run one at a time in a child)
+	stack    string        // top frames of the panic, if any
 	errLog   string // what the parser wrote to its error writer (first 400 bytes)
 }
 
@@ -116,6 +117,15 @@ func (r *verifAmlResult) release() {
 	for _, tb := range r.tables {
 		tb.release()
 	}
+}
+
+// verifAmlCPU: user + system CPU time consumed by this process so far
+func verifAmlCPU() time.Duration {
+	var ru syscall.Rusage
+	if err := syscall.Getrusage(syscall.RUSAGE_SELF, &ru); err != nil {
+		return 0
+	}
+	return time.Duration(ru.Utime.Nano() + ru.Stime.Nano())
 }
 
 // verifAmlPanicSite names the innermost function of package aml on a panic's stack and the kind of
@@ -185,7 +195,8 @@ func verifAmlParse(payloads [][]byte) (res verifAmlResult) {
 	}
 	p := NewParser(ew, res.tree)
 	start := time.Now()
-	defer func() { res.elapsed = time.Since(start) }()
+	cpu0 := verifAmlCPU()
+	defer func() { res.elapsed = time.Since(start); res.cpu = verifAmlCPU() - cpu0 }()
 	for i, tb := range res.tables {
 		var err error
 		func() {
